@@ -6,6 +6,7 @@ pub mod c06;
 pub mod c07;
 pub mod c08;
 pub mod c09;
+pub mod c10;
 
 use crate::run::{Runner, Verdict};
 
@@ -32,6 +33,7 @@ pub fn registry(id: &str) -> Option<Entry> {
         "C07" => Entry { run: c07::run, replay: c07::replay, rule: "every (a,b) pair of the stated alphabets is one state; each is judged through no_overlap, is_valid, both TryFrom impls and both round trips against RN(a+b)==a; a pair is distinct by its 128 bits", assumptions: BASE_ASSUME },
         "C08" => Entry { run: c08::run, replay: c08::replay, rule: "state = one valid operand; transition = floor/ceil/trunc/round/fract (inherent and num_traits::Float); judged against exact integer arithmetic on hi+lo", assumptions: BASE_ASSUME },
         "C09" => Entry { run: c09::run, replay: c09::replay, rule: "state = one integer value of one of the ten types, one TwoFloat, or one f32; transition = every conversion route (From / TryFrom by value and by reference / ToPrimitive / NumCast / FromPrimitive); judged against exact integer arithmetic", assumptions: BASE_ASSUME },
+        "C10" => Entry { run: c10::run, replay: c10::replay, rule: "state = ordered operand pair (valid and reachable non-finite) or a single operand; transition = every spelling of the operation (value/reference/assignment, operand typings, trait vs inherent); oracle = the other spelling, bit-identical words (NaN == NaN; algebraic identities modulo the sign of zero words)", assumptions: BASE_ASSUME },
         _ => return None,
     })
 }
